@@ -1,6 +1,7 @@
 package main
 
 import (
+	"sort"
 	"fmt"
 	"go/token"
 	"go/types"
@@ -16,22 +17,31 @@ var verbRe = regexp.MustCompile(`%[-+# 0]*[0-9]*(\.[0-9]+)?[a-zA-Z]`)
 
 // reqFieldReads: which *http.Request fields (dotted path) a value derives from.
 func reqFieldSources(v ssa.Value, req *ssa.Parameter) map[string]bool {
+	return reqFieldSourcesCtx(v, nil, req)
+}
+
+// reqFieldSourcesCtx: the fields of the request parameter req that v is computed from, also
+// through same-package helpers that were handed the request or one of its fields.
+func reqFieldSourcesCtx(v ssa.Value, ctx dctx, req *ssa.Parameter) map[string]bool {
 	out := map[string]bool{}
-	derivesFrom(v, func(x ssa.Value) bool {
-		root, p := fieldPath(x)
-		if resolveVal(root) == ssa.Value(req) && len(p) > 0 {
+	derivesFromDeep(v, ctx, func(x ssa.Value, cx dctx) bool {
+		root, p := ctxFieldPath(x, cx)
+		if root == ssa.Value(req) && len(p) > 0 {
 			out[strings.Join(p, ".")] = true
 		}
+		// control dependence through the merge of constant alternatives (scheme := "http"; if r.TLS != nil {...})
 		return false
 	})
 	return out
 }
 
-// callsOnPath: names of functions applied on the way from the request to v.
-func callsInDerivation(v ssa.Value) map[string]bool {
+// callsInDerivation: names of functions applied on the way from the request to v.
+func callsInDerivation(v ssa.Value) map[string]bool { return callsInDerivationCtx(v, nil) }
+
+func callsInDerivationCtx(v ssa.Value, ctx dctx) map[string]bool {
 	out := map[string]bool{}
-	derivesFrom(v, func(x ssa.Value) bool {
-		if c, ok := x.(*ssa.Call); ok {
+	derivesFromDeep(v, ctx, func(x ssa.Value, _ dctx) bool {
+		if c, ok := x.(*ssa.Call); ok && helperBody(c) == nil {
 			out[calleeName(c)] = true
 		}
 		return false
@@ -39,6 +49,8 @@ func callsInDerivation(v ssa.Value) map[string]bool {
 	return out
 }
 
+// isFixedString: v ranges over a finite set of string constants (a constant, a merge of
+// constants, or a same-package helper all of whose returns are such).
 func isFixedString(v ssa.Value, depth int) bool {
 	if depth > 5 {
 		return false
@@ -54,7 +66,55 @@ func isFixedString(v ssa.Value, depth int) bool {
 		}
 		return len(phi.Edges) > 0
 	}
+	if call, ok := v.(*ssa.Call); ok {
+		if g := helperBody(call); g != nil {
+			n, all := 0, true
+			eachInstr(g, func(in ssa.Instruction) {
+				if ret, ok := in.(*ssa.Return); ok && !isRecoverReturn(ret) {
+					n++
+					vals := retVals(ret)
+					if len(vals) != 1 || !isFixedString(vals[0], depth+1) {
+						all = false
+					}
+				}
+			})
+			return all && n > 0
+		}
+	}
 	return false
+}
+
+// condRequestFields: request fields that decide which alternative of a merge (phi, or the
+// returns of a helper) is taken.
+func condRequestFields(v ssa.Value, req *ssa.Parameter) map[string]bool {
+	out := map[string]bool{}
+	derivesFromDeep(v, nil, func(x ssa.Value, cx dctx) bool {
+		var conds []ssa.Value
+		if phi, ok := x.(*ssa.Phi); ok {
+			conds = append(conds, condLeaves(condOfPhi(phi))...)
+		}
+		if call, ok := x.(*ssa.Call); ok {
+			if g := helperBody(call); g != nil {
+				inner := append(append(dctx{}, cx...), call)
+				for _, blk := range g.Blocks {
+					if iff, ok := blk.Instrs[len(blk.Instrs)-1].(*ssa.If); ok {
+						for _, l := range condLeaves(iff.Cond) {
+							if root, p := ctxFieldPath(l, inner); root == ssa.Value(req) && len(p) > 0 {
+								out[p[0]] = true
+							}
+						}
+					}
+				}
+			}
+		}
+		for _, l := range conds {
+			if root, p := ctxFieldPath(l, cx); root == ssa.Value(req) && len(p) > 0 {
+				out[p[0]] = true
+			}
+		}
+		return false
+	})
+	return out
 }
 
 func checkC02(c *Ctx, r *Report) {
@@ -62,6 +122,7 @@ func checkC02(c *Ctx, r *Report) {
 		"R1 the key builder reads scheme (TLS), Method, Host, URL.Path and URL.RawQuery of the request and all five reach the hashed string",
 		"R2 the components are framed injectively: in the single format expression every client-controlled component except possibly the last is quoted/escaped (a raw join would let a separator move across a boundary)",
 		"R3 Host passes a case fold; the path passes path.Clean and the trailing-slash distinction that Clean drops is restored under strings.HasSuffix(original path, \"/\"); Method and RawQuery reach the key unmodified",
+		"R5 the key names what is fetched: the request fields feeding the key (besides method and transport) are exactly those the upstream target URL is built from in changeRequestToTarget (Host, URL.Path, URL.RawQuery)",
 		"R4 package proxy builds a key only by MakeFromRequest, once per request; every key handed to the cache interface and to singleflight derives from that one call on the same request",
 	}
 	r.NotDec = []string{"percent-encoding equivalences (net/http decodes URL.Path before the proxy sees it)", "hash collisions of BLAKE2b-256", "injectivity as a semantic fact for all strings (the framing rule is a sufficient structural condition)"}
@@ -95,18 +156,9 @@ func checkC02(c *Ctx, r *Report) {
 			alt = "URL.RawPath"
 			srcs["URL.Path"] = true
 		}
-		// TLS influences the key through control flow (scheme phi)
-		if want == "TLS" && !srcs["TLS"] {
-			derivesFrom(keyStr, func(x ssa.Value) bool {
-				if phi, ok := x.(*ssa.Phi); ok {
-					for _, l := range condLeaves(condOfPhi(phi)) {
-						if root, p := fieldPath(l); resolveVal(root) == ssa.Value(req) && len(p) > 0 && p[0] == "TLS" {
-							srcs["TLS"] = true
-						}
-					}
-				}
-				return false
-			})
+		// TLS influences the key through control flow (which scheme constant is chosen)
+		if want == "TLS" && !srcs["TLS"] && condRequestFields(keyStr, req)["TLS"] {
+			srcs["TLS"] = true
 		}
 		r.Check(srcs[want], "C02.R1", "key depends on request."+alt, c.Pos(f.Pos()), "component reaches the hashed string", "the cache key does not depend on request."+want+": two requests differing only there share an entry")
 	}
@@ -176,7 +228,7 @@ func checkC02(c *Ctx, r *Report) {
 			if calls["path.Clean"] {
 				// trailing slash restore: operand depends (phi) on HasSuffix(r.URL.Path, "/") and one edge appends "/"
 				restored := false
-				derivesFrom(op, func(x ssa.Value) bool {
+				derivesFromDeep(op, nil, func(x ssa.Value, cx dctx) bool {
 					phi, ok := x.(*ssa.Phi)
 					if !ok {
 						return false
@@ -195,7 +247,7 @@ func checkC02(c *Ctx, r *Report) {
 					for _, l := range condLeaves(condOfPhi(phi)) {
 						if call, ok := l.(*ssa.Call); ok && calleeName(call) == "strings.HasSuffix" {
 							if sfx, ok := constString(call.Call.Args[1]); ok && sfx == "/" {
-								if reqFieldSources(call.Call.Args[0], req)["URL.Path"] && !callsInDerivation(call.Call.Args[0])["path.Clean"] {
+								if reqFieldSourcesCtx(call.Call.Args[0], cx, req)["URL.Path"] && !callsInDerivationCtx(call.Call.Args[0], cx)["path.Clean"] {
 									restored = true
 								}
 							}
@@ -208,6 +260,66 @@ func checkC02(c *Ctx, r *Report) {
 		}
 	}
 	r.Floor("C02.R2", len(ops), 5, "key components")
+
+	// ---- R5: the key names the resource that is fetched. The request fields the key is built from
+	// (apart from method and transport) are exactly the fields the upstream target URL is built from.
+	for _, tf := range c.FuncsNamed(proxyPkg + ".changeRequestToTarget") {
+		treq := tf.Params[0]
+		target := map[string]bool{}
+		// the value stored into req.URL, and everything stored into its fields
+		eachInstr(tf, func(in ssa.Instruction) {
+			st, ok := in.(*ssa.Store)
+			if !ok {
+				return
+			}
+			root, pth := fieldPath(st.Addr)
+			if resolveVal(root) == ssa.Value(treq) && len(pth) == 1 && pth[0] == "URL" {
+				collect := func(v ssa.Value) {
+					for k := range reqFieldSourcesCtx(v, nil, treq) {
+						target[k] = true
+					}
+				}
+				collect(st.Val)
+				// fields written through the new URL pointer before it is installed
+				if refs := resolveVal(st.Val).Referrers(); refs != nil {
+					for _, ref := range *refs {
+						if fa, ok := ref.(*ssa.FieldAddr); ok {
+							for _, s2 := range storesTo(fa) {
+								collect(s2.Val)
+							}
+						}
+					}
+				}
+			}
+		})
+		keyS := map[string]bool{}
+		for k := range srcs {
+			if k != "Method" && k != "TLS" && k != "URL" {
+				keyS[k] = true
+			}
+		}
+		delete(target, "URL.Fragment") // never sent to the origin
+		delete(target, "URL")
+		var onlyKey, onlyTarget []string
+		for k := range keyS {
+			if !target[k] {
+				onlyKey = append(onlyKey, k)
+			}
+		}
+		for k := range target {
+			if !keyS[k] {
+				onlyTarget = append(onlyTarget, k)
+			}
+		}
+		sort.Strings(onlyKey)
+		sort.Strings(onlyTarget)
+		r.Check(len(onlyKey) == 0 && len(onlyTarget) == 0 && len(target) >= 3, "C02.R5", "key and upstream target are built from the same request fields", c.Pos(tf.Pos()),
+			"both from "+strings.Join(keysOf(target), ", "),
+			fmt.Sprintf("the key and the upstream target URL are built from different request fields (key only: %v; target only: %v): two requests that are sent to different resources can get the same key, or the entry is filed under a name other than the resource fetched", onlyKey, onlyTarget))
+	}
+	if len(c.FuncsNamed(proxyPkg+".changeRequestToTarget")) == 0 {
+		r.Undecided("C02.R5", "changeRequestToTarget", "-", "unresolved anchor")
+	}
 
 	// ---- R4
 	nKeyUse := 0
